@@ -1444,7 +1444,7 @@ class Fxp():
             if self.n_word != x.n_word:
                 raise ValueError("Operands dont't have same word size!")
             else:
-                x_val = x.val.astype(self.val.dtype) # if it doen't care data type difference
+                x_val = x.val   # (the bit pattern of each code is taken by the helper: no cast to the other operand's value type is needed)
         else:
             x_val = x
 
@@ -1465,11 +1465,11 @@ class Fxp():
             if self.n_word != x.n_word:
                 raise ValueError("Operands dont't have same word size!")
             else:
-                x_val = x.val.astype(self.val.dtype) # if it doen't care data type difference
+                x_val = x.val   # (the bit pattern of each code is taken by the helper: no cast to the other operand's value type is needed)
         else:
             x_val = x
 
-        ored_val = utils.binary_or(self.val.astype(self.val.dtype), x_val, n_word=self.n_word)
+        ored_val = utils.binary_or(np.asarray(self.val), x_val, n_word=self.n_word)
         if self.signed:
             ored_val = utils.twos_complement_repr(ored_val, nbits=self.n_word)
 
@@ -1486,11 +1486,11 @@ class Fxp():
             if self.n_word != x.n_word:
                 raise ValueError("Operands dont't have same word size!")
             else:
-                x_val = x.val.astype(self.val.dtype) # if it doen't care data type difference
+                x_val = x.val   # (the bit pattern of each code is taken by the helper: no cast to the other operand's value type is needed)
         else:
             x_val = x
 
-        xored_val = utils.binary_xor(self.val.astype(self.val.dtype), x_val, n_word=self.n_word)
+        xored_val = utils.binary_xor(np.asarray(self.val), x_val, n_word=self.n_word)
         if self.signed:
             xored_val = utils.twos_complement_repr(xored_val, nbits=self.n_word)
 
